@@ -166,6 +166,18 @@ pub fn check_leap(c: &LeapCase, st: &mut Stats) -> Result<(), String> {
                         return Err(format!("leaps {:?}: zone with table transition at count {t_cnt} (UTC {u_t}) + DST rule: lookup at u={u} gives is_dst={} but the transition takes effect exactly at {u_t}", c.leaps, l.is_dst()));
                     }
                 }
+                // the first rule-generated transition after the table: the forward lookup switches exactly at the rule's own UTC instant
+                // (the rule is read on the UTC scale, not on the counting scale, which differs by the accumulated correction)
+                let nx = if to == 1 { eu.e(y) } else { eu.s(y + 1) };
+                for d in -70i64..=2 {
+                    st.eval(1);
+                    let u = nx + d;
+                    let l = zr.find_local_time_type(u).map_err(|e| format!("junction probe: lookup at {u}: {e:?}"))?;
+                    let exp_dst = if d < 0 { to == 1 } else { to != 1 };
+                    if l.is_dst() != exp_dst {
+                        return Err(format!("leaps {:?}: zone with one table transition (UTC {u_t}) + EU rule: lookup at u={u} gives is_dst={} but the rule's next transition is at UTC {nx}", c.leaps, l.is_dst()));
+                    }
+                }
                 // the rule-generated forward transition that follows: its gap must be reported at the rule's own UTC instant
                 let next_s = if to == 1 { eu.s(y + 1) } else { eu.s(y + 1) };
                 {
